@@ -292,6 +292,37 @@ fn run_set<S: PS>(ctx: &Ctx) -> Acc {
             }
         }
 
+        // ---------- (c'') sparse hints at special positions, and the all-zero response ----------
+        // lone hints at the first / last position of the flattened hint vector, pairs of them, and z = 0
+        // (then w' = 0 in every coefficient: the one residue where UseHint(1, r) wraps from 0 to m-1)
+        {
+            let places: [&[(usize, usize)]; 7] = [&[(0, 0)], &[(0, 1)], &[(p.k - 1, 255)], &[(0, 0), (p.k - 1, 255)], &[(p.k - 1, 0)], &[(0, 255)], &[]];
+            for (zi, zero_z) in [false, true].into_iter().enumerate() {
+                for (pi_, place) in places.iter().enumerate() {
+                    if (ji + zi + pi_) % 2 == 1 && !ctx.thorough() {
+                        continue;
+                    }
+                    let mode = MODES[(ji + pi_) % 4];
+                    let m = gen::message(&mut g, 21);
+                    let mp = r::format_message(mode, &m, &[]).unwrap();
+                    let z: Vec<Poly> = if zero_z { vec![r::ZERO; p.l] } else { (0..p.l).map(|_| core::array::from_fn(|_| g.range(-1000, 1000))).collect() };
+                    let mut h = vec![r::ZERO; p.k];
+                    for &(a, b) in place.iter() {
+                        h[a][b] = 1;
+                    }
+                    let sig = gen::forge_degenerate(p, &rho, &mp, &z, &h, None);
+                    let _ = check_case::<S>(&mut acc, &format!("c-sparse-hint-{}{}", if zero_z { "zero-z-" } else { "" }, pi_), &dpk, &m, &[], mode, &sig, true);
+                }
+                // weight omega, all in one polynomial, with z = 0 / small z
+                let m = gen::message(&mut g, 21);
+                let mp = r::format_message(Mode::Pure, &m, &[]).unwrap();
+                let z: Vec<Poly> = if zero_z { vec![r::ZERO; p.l] } else { (0..p.l).map(|_| core::array::from_fn(|_| g.range(-3, 3))).collect() };
+                let h = gen::hint_with_weight(&mut g, p, p.omega, 1);
+                let sig = gen::forge_degenerate(p, &rho, &mp, &z, &h, None);
+                let _ = check_case::<S>(&mut acc, if zero_z { "c-full-hint-zero-z" } else { "c-full-hint-tiny-z" }, &dpk, &m, &[], Mode::Pure, &sig, true);
+            }
+        }
+
         // ---------- (d) malformations with lenient-equivalent c~ -------------------------------
         for mal in HINT_MALS {
             let mode = *g.pick(&MODES);
